@@ -202,6 +202,7 @@ def normalize_url(
     unsplit=True,
     quoted=False,
     query_item_filter=None,
+    lowercase=False,
 ):
     """
     Function normalizing the given url by stripping it of usually
@@ -304,6 +305,11 @@ def normalize_url(
     # "%75tm_source=x") are handled like the unescaped ones below
     path = safely_unquote_path(path)
 
+    # NOTE: unquoting can reveal uppercase letters (e.g. "%41")
+    if lowercase:
+        path = upper_quoted(path.lower())
+        fragment = upper_quoted(safely_unquote_fragment(fragment).lower())
+
     # Handling Google AMP suffixes
     if normalize_amp:
         path = AMP_SUFFIXES_RE.sub("", path)
@@ -338,9 +344,20 @@ def normalize_url(
 
         # TODO: what to do of empty query items vs. no valued
         # TODO: should be dedupe query items?
+        qsl = safely_unquote_qsl(safe_qsl_iter(query))
+
+        if lowercase:
+            qsl = [
+                (
+                    upper_quoted(key.lower()),
+                    upper_quoted(value.lower()) if value is not None else None,
+                )
+                for key, value in qsl
+            ]
+
         qsl = [
             item
-            for item in safely_unquote_qsl(safe_qsl_iter(query))
+            for item in qsl
             if not should_strip_query_item(
                 item,
                 normalize_amp=normalize_amp,
